@@ -84,6 +84,12 @@ theorem one_writer_at_a_time (m m' : WLock.Mu) (tx : WLock.Tx) (h : WLock.beginT
     WLock.beginTx m' true = none :=
   WLock.begin_blocks_while_held m m' tx h
 
+/-- … nor does a `Begin` that is refused because the store has been closed keep the lock: the next write is refused too
+    instead of waiting forever (the path the adapter takes after `Close`). -/
+theorem refused_begin_leaves_the_lock_free (m m' : WLock.Mu) (u : Bool) (h : WLock.beginOnClosed m u = some m') :
+    m'.locked = m.locked ∧ m'.fault = m.fault ∧ WLock.beginOnClosed m' u ≠ none :=
+  WLock.beginOnClosed_leaves_lock_free m m' u h
+
 /-- (facts) the handle holds the store and an atomic flag, nothing else -/
 theorem handle_has_no_shared_mutable_state : dbFields = ["store store.Store", "closed uint32"] := by decide
 
